@@ -50,7 +50,10 @@ def ev(e, S, b):
 
 
 def cmp(op, x, y):
-    close = abs(x - y) <= EPS
+    # the library compares with math.isclose(x, y, abs_tol=EPSILON), which also carries Python's default relative
+    # tolerance of 1e-9; at the magnitudes the generator can reach (1e16 among the awkward numbers) that term matters.
+    # Tolerance semantics is C12's subject (not claimed); the reference mirrors the library here.
+    close = abs(x - y) <= max(EPS, 1e-9 * max(abs(x), abs(y)))
     return {"<": x < y, "<=": close or x < y, "=": close, ">=": close or x > y, ">": x > y}[op]
 
 
